@@ -568,9 +568,11 @@ mod v_iface_frag_tx {
     }
 
     // One fragment into an empty reassembly set, header fields at boundary values: what `process_ipv4` stores is
-    // what the header says (offset, length; total size only from a fragment with MF clear); fragments reaching
-    // beyond the reassembly buffer are dropped without panic.  (All offsets and lengths at the PacketAssembler
-    // level: ipv4_reasm_bounds in iface_frag.rs; a harness with a symbolic offset through `process_ip` ran out of memory.)
+    // what the header says (offset, length; total size only from a fragment with MF clear), observed by completing
+    // the datagram around it through the crate-internal PacketAssembler API; fragments reaching beyond the
+    // reassembly buffer are dropped without panic and leave nothing behind.  (All offsets and lengths at the
+    // PacketAssembler level: ipv4_reasm_bounds in iface_frag.rs; a harness with a symbolic offset through
+    // `process_ip` ran out of memory.)
     fn process_one(off8: u16, mf: bool) {
         ip_iface!(dev, iface, 1500, ChecksumCapabilities::ignored());
         raw_receiver!(sockets, h);
@@ -592,26 +594,52 @@ mod v_iface_frag_tx {
         let reply_none = iface.inner.process_ip(&mut sockets, PacketMeta::default(), &f[..], &mut iface.fragments).is_none();
         assert!(reply_none, "prop:c12_reasm_fragment_causes_no_reply");
         assert!(sockets.get_mut::<sraw::Socket>(h).recv().is_err(), "prop:c12_reasm_delivers_only_when_every_byte_present");
-        let bsz = crate::config::REASSEMBLY_BUFFER_SIZE;
-        let fits = off + 8 <= bsz;
-        let a0 = iface.fragments.assembler.verif_slot(0);
-        let a1 = iface.fragments.assembler.verif_slot(1);
-        // exactly one slot was taken, for this datagram, expiring one reassembly timeout from now
-        assert!(a0.0 != a1.0, "prop:c12_reasm_first_fragment_takes_one_slot");
-        let (total, front_hole, front_len, exp) = if a0.0 { (a0.1, a0.2, a0.3, a0.4) } else { (a1.1, a1.2, a1.3, a1.4) };
-        assert!(exp == 60_000, "prop:c12_reasm_slot_expires_one_timeout_after_first_fragment");
+        const BSZ: usize = crate::config::REASSEMBLY_BUFFER_SIZE;
+        let fits = off + 8 <= BSZ;
+        let key = FragKey::Ipv4(Ipv4Packet::new_unchecked(&f[..]).get_key());
+        // the slot of this datagram exists since the fragment arrived (its expiry is one reassembly timeout after that,
+        // not the instant offered now)
+        let slot = iface.fragments.assembler.get(&key, Instant::from_millis(123_456));
+        assert!(slot.is_ok(), "prop:c12_reasm_first_fragment_takes_one_slot");
+        let slot = slot.unwrap();
+        assert!(slot.expires_at() == Instant::from_millis(60_000), "prop:c12_reasm_slot_expires_one_timeout_after_first_fragment");
+        assert!(!slot.is_complete(), "prop:c12_reasm_delivers_only_when_every_byte_present");
+        let filler = [0xa5u8; BSZ];
+        let k = any_lt(8);
         if fits {
-            assert!(total == if mf { None } else { Some(off + 8) }, "prop:c12_reasm_total_size_only_from_last_fragment");
-            assert!(front_hole == off && front_len == 8, "prop:c12_reasm_fragment_recorded_at_header_offset");
-            let k = any_lt(8);
-            assert!(iface.fragments.assembler.verif_byte(if a0.0 { 0 } else { 1 }, off + k) == data[k], "prop:c12_reasm_fragment_stored_at_its_offset");
+            // everything in front of it arrives, and (if it was not the last) one byte behind it as the last fragment
+            if off > 0 {
+                slot.add(&filler[..off], 0).unwrap();
+            }
+            let total = if mf {
+                assert!(slot.set_total_size(off + 9).is_ok(), "prop:c12_reasm_total_size_only_from_last_fragment");
+                slot.add(&filler[..1], off + 8).unwrap();
+                off + 9
+            } else {
+                off + 8
+            };
+            let p = slot.assemble();
+            assert!(p.is_some(), "prop:c12_reasm_fragment_recorded_at_header_offset");
+            let p = p.unwrap();
+            assert!(p.len() == total, "prop:c12_reasm_total_size_only_from_last_fragment");
+            assert!(p[off + k] == data[k], "prop:c12_reasm_fragment_stored_at_its_offset");
         } else {
-            assert!(front_len == 0, "prop:c12_reasm_fragment_beyond_buffer_rejected");
+            // nothing of it was recorded, no length was learnt: an 8-byte datagram completes on its own
+            assert!(slot.set_total_size(8).is_ok(), "prop:c12_reasm_fragment_beyond_buffer_rejected");
+            slot.add(&filler[..8], 0).unwrap();
+            let p = slot.assemble();
+            assert!(p.map(|p| p.len()) == Some(8), "prop:c12_reasm_fragment_beyond_buffer_rejected");
         }
         kani::cover!(fits == (off + 8 <= 256), "fragment processed");
     }
 
-    // @harness props=C12,C03 cfg=KI4 tier=q to=600 mem=6 unwind=12 opts=nomem covers=1 funcs=InterfaceInner::process_ip;InterfaceInner::process_ipv4;Ipv4Packet::frag_offset;Ipv4Packet::more_frags;Ipv4Packet::get_key;PacketAssemblerSet::get;PacketAssembler::set_total_size;PacketAssembler::add bounds=one_fragment_of_8_symbolic_bytes_into_an_empty_reassembly_set;_offset_248_MF_clear_(ends_exactly_at_the_256-byte_buffer_end)
+    // @harness props=C12 cfg=KI4 tier=q to=600 mem=6 unwind=12 opts=nomem covers=1 funcs=InterfaceInner::process_ip;InterfaceInner::process_ipv4;Ipv4Packet::frag_offset;Ipv4Packet::more_frags;Ipv4Packet::get_key;PacketAssemblerSet::get;PacketAssembler::set_total_size;PacketAssembler::add bounds=one_fragment_of_8_symbolic_bytes_into_an_empty_reassembly_set;_offset_0_MF_set_(first_fragment)
+    #[kani::proof]
+    pub(crate) fn ipv4_reasm_process_one_first() {
+        process_one(0, true);
+    }
+
+    // @harness props=C12 cfg=KI4 tier=q to=600 mem=6 unwind=12 opts=nomem covers=1 funcs=InterfaceInner::process_ip;InterfaceInner::process_ipv4;Ipv4Packet::frag_offset;Ipv4Packet::more_frags;Ipv4Packet::get_key;PacketAssemblerSet::get;PacketAssembler::set_total_size;PacketAssembler::add bounds=one_fragment_of_8_symbolic_bytes_into_an_empty_reassembly_set;_offset_248_MF_clear_(ends_exactly_at_the_256-byte_buffer_end)
     #[kani::proof]
     pub(crate) fn ipv4_reasm_process_one_end() {
         process_one(31, false);
